@@ -237,7 +237,9 @@ def run_case(case):
         try:
             a = fn(Q, mk(name, True), mk(name, True))
         except Exception as e:
-            res.extra["disabled"] = 1
+            res.nontrivial = 1
+            res.violate("C12|%s|build-raises|%s" % (pos, type(e).__name__), "a valid statement of the menu was rejected while it was built",
+                        dialect=d, term=name, pos=pos, error=str(e)[:200])
             return res
         res.nontrivial = 1
         term = mk(name, True)
@@ -274,8 +276,13 @@ def run_case(case):
         a = fn(Q, mk(name, True))
         b = fn(Q, mk(name, False))
     except Exception as e:
-        res.extra["disabled"] = 1
-        res.extra.setdefault("disabled_kinds", set()).add("%s:%s" % (pos, type(e).__name__))
+        if (pos, type(e).__name__) in (("returning", "QueryException"),):  # RETURNING accepts columns of the target and constants only
+            res.extra["disabled"] = 1
+            res.extra.setdefault("disabled_kinds", set()).add("%s:%s" % (pos, type(e).__name__))
+            return res
+        res.nontrivial = 1
+        res.violate("C12|%s|build-raises|%s" % (pos, type(e).__name__), "a valid statement of the menu was rejected while it was built",
+                    dialect=d, term=name, pos=pos, error=str(e)[:200])
         return res
     res.nontrivial = 1
     term = mk(name, True)
